@@ -2,7 +2,7 @@
    lengthening, and injectivity of the transcribed comparator projections. *)
 From Coq Require Import List Arith NArith ZArith Lia Bool ZifyN ZifyBool ZifyNat.
 From Coq.Strings Require Import Byte.
-From EV Require Import Base.Bytes Base.Codec Gen.Tables Model.Tx Model.Taproot Model.PsetRaw Model.PsetValues Proofs.Tx Proofs.Taproot Proofs.PsetRaw.
+From EV Require Import Base.Bytes Base.Codec Gen.Tables Model.Tx Model.BtcTx Model.Taproot Model.PsetRaw Model.PsetValues Proofs.Tx Proofs.BtcTx Proofs.Taproot Proofs.PsetRaw.
 Import ListNotations.
 Ltac Zify.zify_post_hook ::= Z.div_mod_to_equations.
 Open Scope N_scope.
@@ -11,11 +11,11 @@ Set Default Timeout 60.
 Section VALUES.
 Variable maxvec : N.
 Variables cap_txin cap_txout cap_vecu8 cap_h32 : N.
-Variables pt_ok pk_ok xonly_ok btctx_ok xpub_ok : bytes -> bool.
+Variables pt_ok pk_ok xonly_ok : bytes -> bool.
 Variables Hrip Hsha Hh160 Hh256 : bytes -> bytes.
 Variables Hleaf Hbranch : bytes -> bytes.
-Notation vcanon := (vcanon maxvec cap_txin cap_txout cap_vecu8 cap_h32 pt_ok pk_ok xonly_ok btctx_ok xpub_ok Hrip Hsha Hh160 Hh256 Hleaf Hbranch).
-Notation kcanon := (kcanon maxvec cap_txin cap_txout cap_vecu8 cap_h32 pt_ok pk_ok xonly_ok btctx_ok xpub_ok Hrip Hsha Hh160 Hh256 Hleaf Hbranch).
+Notation vcanon := (vcanon maxvec cap_txin cap_txout cap_vecu8 cap_h32 pt_ok pk_ok xonly_ok Hrip Hsha Hh160 Hh256 Hleaf Hbranch).
+Notation kcanon := (kcanon maxvec cap_txin cap_txout cap_vecu8 cap_h32 pt_ok pk_ok xonly_ok Hrip Hsha Hh160 Hh256 Hleaf Hbranch).
 Notation canon_taptree := (canon_taptree maxvec Hleaf Hbranch).
 
 Lemma guard_ok c v x : guard c v = POk x -> x = v /\ c = true.
@@ -88,6 +88,7 @@ Proof. destruct t; cbn [PsetValues.vcanon]; intros H;
   - apply (via_exact _ (c_stack_lawful maxvec cap_vecu8)) in H. subst; lia.
   - now apply schnorr_idem in H.
   - apply taptree_id in H. subst; lia.
+  - destruct (N.of_nat (length v) <=? maxvec); [|discriminate]. apply (via_exact _ (c_btctx_lawful maxvec)) in H. subst; lia.
   - unfold preimage in H. destruct (bytes_eqb (Hrip v) k); inversion H; subst; lia.
   - unfold preimage in H. destruct (bytes_eqb (Hsha v) k); inversion H; subst; lia.
   - unfold preimage in H. destruct (bytes_eqb (Hh160 v) k); inversion H; subst; lia.
@@ -105,6 +106,7 @@ Proof. destruct t; cbn [PsetValues.vcanon]; intros H;
   - pose proof (via_exact _ (c_stack_lawful maxvec cap_vecu8) _ _ H). now subst.
   - now apply schnorr_idem in H.
   - pose proof (taptree_id _ _ H). now subst.
+  - destruct (N.of_nat (length v) <=? maxvec) eqn:L; [|discriminate]. pose proof (via_exact _ (c_btctx_lawful maxvec) _ _ H). subst c. now rewrite L.
   - unfold preimage in *. destruct (bytes_eqb (Hrip v) k) eqn:E; inversion H; subst. now rewrite E.
   - unfold preimage in *. destruct (bytes_eqb (Hsha v) k) eqn:E; inversion H; subst. now rewrite E.
   - unfold preimage in *. destruct (bytes_eqb (Hh160 v) k) eqn:E; inversion H; subst. now rewrite E.
